@@ -327,7 +327,7 @@ def probe_rodded_byp(rr, dz, b=0, T0=600.0):
     return W, Ww, float(np.abs(base - T0).max())
 
 
-def _check_weights(ctx, what, W, Ww, info, basedev=0.0):
+def _check_weights(ctx, what, W, Ww, info, basedev=0.0, between=False):
     if basedev > 1e-7:
         ctx.violation("c04-uniform:" + what, "%s: a uniform field is not reproduced without power (dev %.3g K)"
                       % (what, basedev), case=info)
@@ -338,8 +338,10 @@ def _check_weights(ctx, what, W, Ww, info, basedev=0.0):
     ctx.stats["max_rowsum_dev"] = max(ctx.stats.get("max_rowsum_dev", 0.0), float(rs))
     if mn < -TOL_W:
         i, j = np.unravel_index(np.argmin(W), W.shape)
-        ctx.violation("c04-negative-weight:" + what,
-                      "%s: weight %.4g < 0 at the step the code selects (cell %d <- %d)" % (what, mn, i, j),
+        ctx.violation("c04-negative-weight:" + what + (":between-range-ends" if between else ""),
+                      "%s: weight %.4g < 0 at the step the code selects (cell %d <- %d)%s" % (
+                          what, mn, i, j, " at a temperature strictly between the inlet and outlet values at which the limit is "
+                          "evaluated (weights at both ends are non-negative)" if between else ""),
                       case=info, min_weight=float(mn), cell=int(i), from_cell=int(j))
         return False
     if rs > 1e-8:
@@ -355,16 +357,18 @@ def oracle_rodded(ctx, rng, n_cases):
         n_duct = rng.choice([1, 1, 2, 2, 3])
         dims = du.bundle_dims(rng, n_ring, n_duct)
         const = rng.random() < 0.6
-        coolant = (du.const_material('c', k=rng.uniform(10, 80), cp=rng.uniform(800, 1500), rho=rng.uniform(700, 900),
-                                     mu=rng.uniform(1e-4, 5e-4)) if const else du.temp_material(rng.choice(['sodium', 'nak', 'lead'])))
+        cprops = dict(k=rng.uniform(10, 80), cp=rng.uniform(800, 1500), rho=rng.uniform(700, 900), mu=rng.uniform(1e-4, 5e-4))
+        cname = rng.choice(['sodium', 'nak', 'lead'])
+        coolant = du.const_material('c', **cprops) if const else du.temp_material(cname)
         fr = 10 ** rng.uniform(-3, 1.3)
         corr = dict(corr_friction=rng.choice(['CTD', 'NOV', 'REH', 'ENG', 'CTS', 'UCTD']),
                     corr_flowsplit=rng.choice(['CTD', 'NOV', 'SE2', 'MIT', 'UCTD']),
                     corr_mixing=rng.choice(['CTD', 'MIT', 'UCTD']))
-        info = dict(n_ring=n_ring, n_duct=n_duct, dims=dims, flow=fr, corr=corr, const_props=const)
+        extra = dict(byp_ff=rng.uniform(0.01, 0.3), wwdir=rng.choice(['clockwise', 'counterclockwise']), sf=rng.uniform(1.0, 1.5))
+        info = dict(n_ring=n_ring, n_duct=n_duct, dims=dims, flow=fr, corr=corr, const_props=const,
+                    coolant=(cprops if const else cname), **extra)
         try:
-            rr = du.make_rr(dims, flow_rate=fr, coolant=coolant, corr=corr, byp_ff=rng.uniform(0.01, 0.3),
-                            wwdir=rng.choice(['clockwise', 'counterclockwise']), sf=rng.uniform(1.0, 1.5))
+            rr = du.make_rr(dims, flow_rate=fr, coolant=coolant, corr=corr, **extra)
         except (KeyError, TypeError, SystemExit, IndexError, ValueError) as ex:   # correlation combos that cannot be evaluated: C12's business
             ctx.count("oracle_rodded_skipped_build")
             continue
@@ -380,7 +384,8 @@ def oracle_rodded(ctx, rng, n_cases):
             ctx.count("oracle_rodded_skipped_eval")
             continue
         info.update(dz=float(dz), limiting=str(code), t_lo=t_lo, t_hi=t_hi)
-        temps = [t_lo, t_hi] if not ctx.thorough or const else list(np.linspace(t_lo, t_hi, 6))
+        # both ends of the range first (where the code evaluates the limit), then - thorough tier - temperatures in between
+        temps = [t_lo, t_hi] if not ctx.thorough or const else [t_lo, t_hi] + list(np.linspace(t_lo, t_hi, 6))[1:-1]
         ctx.evals += 1
         ctx.count("limiting_class:" + str(code).split('-')[0] + "-" + str(code).split('-')[1] if '-' in str(code) else str(code))
         for T in temps:
@@ -392,12 +397,17 @@ def oracle_rodded(ctx, rng, n_cases):
             except (KeyError, TypeError, SystemExit, ZeroDivisionError, IndexError, ValueError):
                 ctx.count("oracle_rodded_skipped_eval")
                 break
+            between = t_lo < T < t_hi
             W, Ww, bd = probe_rodded_int(rr, dz, T)
-            if not _check_weights(ctx, "rodded interior", W, Ww, dict(info, T=T), bd):
+            if not _check_weights(ctx, "rodded interior", W, Ww, dict(info, T=T), bd, between):
+                if between:
+                    break
                 return
             for b in range(rr.n_bypass):
                 Wb, Wwb, bd = probe_rodded_byp(rr, dz, b, T)
-                if not _check_weights(ctx, "rodded bypass", Wb, Wwb, dict(info, T=T, bypass=b), bd):
+                if not _check_weights(ctx, "rodded bypass", Wb, Wwb, dict(info, T=T, bypass=b), bd, between):
+                    if between:
+                        break
                     return
         if case < 4:
             ctx.sample(dict(kind="oracle-rodded", **{k: info[k] for k in ("n_ring", "n_duct", "flow", "dz", "limiting", "conv_approx")}))
